@@ -293,6 +293,7 @@ static void ghost_obs(int point, const void* a, const void* b, int me) {
       // scheduler puts it behind the batch that is being collected. Its time as a *ready* fiber in this queue starts now.
       vp_gfiber_t* g = gfind(b, 1);
       const int si = sched_idx(a);
+      atomic_fetch_add(&g->skips, 1);
       atomic_store(&g->queued_sched, (uintptr_t)a);
       atomic_store(&g->queued_mark, atomic_load(&g_sched[si].sw));
       atomic_store(&g->mark_gen, atomic_load(&g_arm_gen));
@@ -522,7 +523,9 @@ const void* vp_ghost_ready_on_my_sched(uint64_t* mark_out) {
     const uintptr_t k = atomic_load_explicit(&g->key, memory_order_acquire);
     if (!k || atomic_load(&g->destroyed) || atomic_load(&g->queued_sched) != me) continue;
     if (atomic_load(&g->pending) <= 0 || atomic_load(&g->running_on) != -1) continue;
-    if (mark_out) *mark_out = atomic_load(&g->queued_mark) ^ ((uint64_t)atomic_load(&g->switches_in) << 40);
+    // (a fiber that the scheduler keeps skipping because the library still has it in its saving state is not ready in the library's
+    // sense, whatever the ghost thinks: every skip changes the mark, so two looks never agree on it)
+    if (mark_out) *mark_out = atomic_load(&g->queued_mark) ^ ((uint64_t)atomic_load(&g->switches_in) << 40) ^ (atomic_load(&g->skips) << 20);
     for (t = 0; t < VP_MAX_THREADS; ++t)
       if (atomic_load(&g_thr[t].stealing)) return NULL;
     return (const void*)k;
